@@ -3,7 +3,7 @@ import random, common, oracle as O
 RULE = ("pairs on connected multigraphs: identical object, equal divisors on separately constructed / dict-reloaded copies, D vs D-L*sigma (plus extra firing moves on either side), "
         "same degree but random (mostly different class), different degree, same vertex set but different multiplicities; non-trivial = distinct pair not decided by the degree gate")
 EXPLANATION = "verdict of linear_equivalence compared for equality with the model's linear_equivalence (spec theorem C07_spec); symmetric call compared too"
-KINDS = ["same", "copy", "reload", "fired", "fired", "moved", "samedeg", "samedeg", "diffdeg", "diffgraph"]
+KINDS = ["same", "copy", "reload", "fired", "fired", "moved", "samedeg", "samedeg", "diffdeg", "diffgraph", "grown", "grown"]
 
 def gen(rng, tier):
     cases = []
@@ -16,6 +16,10 @@ def gen(rng, tier):
             D2 = common.random_divisor(rng, G); i = rng.randrange(n); D2[i] += sum(D1) - sum(D2)
         elif kind == "diffdeg":
             D2 = list(D1); D2[rng.randrange(n)] += rng.choice([-2, -1, 1, 3])
+        elif kind == "grown" and n >= 2:
+            # history on one graph object: it starts as a spanning tree (queried: genus, an equivalence test), grows edge by edge into G, and is asked again
+            D2 = common.lap_apply(G, D1, [rng.randint(-3, 3) for _ in range(n)]) if rng.random() < 0.4 else common.random_divisor(rng, G)
+            if rng.random() < 0.8: D2[rng.randrange(n)] += sum(D1) - sum(D2)
         elif kind == "diffgraph" and G["edges"]:
             e = [list(x) for x in G["edges"]]; e[rng.randrange(len(e))][2] += 1
             G2 = dict(G); G2["edges"] = e
@@ -26,6 +30,30 @@ def gen(rng, tier):
 def impl(c):
     from chipfiring import linear_equivalence, CFDivisor, CFGraph
     rng = random.Random(c["s"]); G = c["G"]
+    if c["kind"] == "grown" and G["n"] >= 2:
+        from chipfiring import is_winnable
+        n = G["n"]; names = G["names"]; seen = {0}; tree = []; rest = []
+        es = [list(e) for e in G["edges"]]; rng.shuffle(es); changed = True
+        while changed:
+            changed = False
+            for e in es:
+                if (e[0] in seen) != (e[1] in seen) and e not in tree: tree.append(e); seen |= {e[0], e[1]}; changed = True
+        for a, b, k in es:
+            if [a, b, k] in tree:
+                if k > 1: rest.append([a, b, k - 1])
+            else: rest.append([a, b, k])
+        Gt = common.mk_graph_like(G, [[a, b, 1] for a, b, k in tree])
+        g = common.build_impl_graph(Gt, rng)
+        e1 = common.build_impl_divisor(Gt, c["D1"], graph=g, rng=rng); e2 = common.build_impl_divisor(Gt, c["D2"], graph=g, rng=rng)
+        pre = [bool(linear_equivalence(e1, e2)), g.get_genus(), bool(is_winnable(common.build_impl_divisor(Gt, c["D1"], graph=g, rng=rng)))]
+        for a, b, k in rest:
+            if rng.random() < 0.5: a, b = b, a
+            g.add_edge(names[a], names[b], k)
+            if rng.random() < 0.3: g.get_genus()
+        d1 = common.build_impl_divisor(G, c["D1"], graph=g, rng=rng)
+        d2 = common.build_impl_divisor(G, c["D2"], graph=g if rng.random() < 0.5 else None, rng=rng)
+        a = bool(linear_equivalence(d1, d2)); b = bool(linear_equivalence(common.build_impl_divisor(G, c["D2"], graph=g, rng=rng), common.build_impl_divisor(G, c["D1"], graph=g, rng=rng)))
+        return {"fwd": a, "bwd": b, "genus_now": g.get_genus(), "pre": pre}
     d1 = common.build_impl_divisor(G, c["D1"], rng=rng)
     if c["kind"] == "same": d2 = d1
     elif c["kind"] == "reload": d2 = CFDivisor.from_dict(common.build_impl_divisor(c["G2"], c["D2"], rng=rng).to_dict())
@@ -46,6 +74,7 @@ def judge(c, r, mo):
     if "exc" in r: return [{"what": "implementation raised %s: %s" % (r["exc"], r.get("msg"))}]
     if mo[0][0] == "FUEL": return []
     want = mo[0][0] == "1"; out = []
+    if "genus_now" in r["ok"] and r["ok"]["genus_now"] != common.genus(c["G"]): out.append({"what": "after growing the graph edge by edge get_genus() = %s, the genus is %d" % (r["ok"]["genus_now"], common.genus(c["G"]))})
     for k in ("fwd", "bwd"):
         if r["ok"][k] != want: out.append({"what": "linear_equivalence (%s, kind=%s) returned %s, the verified model says %s" % (k, c["kind"], r["ok"][k], want)})
     return out[:1]
